@@ -4,7 +4,7 @@
 # checks on the copy and prints which rules fire. The copy is removed afterwards.
 set -u
 V=$(cd "$(dirname "$0")/.." && pwd)
-patch=$1; shift
+patch=$(cd "$(dirname "$1")" && pwd)/$(basename "$1"); shift
 export GOFLAGS=-mod=mod GOPROXY=off GOSUMDB=off GOTOOLCHAIN=local GOWORK=off CGO_ENABLED=0
 tmp=$(mktemp -d /tmp/gpseed-XXXXXX); tv=$(mktemp -d /tmp/gpseedv-XXXXXX)
 trap 'rm -rf "$tmp" "$tv"' EXIT
